@@ -19,6 +19,9 @@ CHECKS = {
  "C12": ("inter", "exhaustive enumeration of the finite vector domains (64x64 predictor/differential pairs per component, all 253 four-vector sums, all neighbour-kind assignments on 9 grids) through whole decoded P pictures",
          "Every (predictor, differential) pair per component and jointly, in a first-row pair and in the interior of a 3x3 grid; every possible sum of four luma vectors in three decompositions for both components; every assignment of {INTER, INTER4V, INTRA, not-coded} to the existing neighbours of every target position on nine macroblock grids for INTER and INTER4V targets; every MVD codeword. The decoded picture over a noise reference is compared with the model's prediction.",
          "Vectors are observed through pixels (noise reference); differentials for prescribed vectors are derived with the model's own predictor, so a model error would show as a false alarm on the unchanged tree, not as silence.", "3.12"),
+ "C04": ("refgraph", "explicit-state breadth-first search over the real H263State to a fixpoint (closed picture alphabet) plus a depth-bounded graph with real motion, every transition compared with a two-slot reference model",
+         "The complete reachable state graph of the decoder for the alphabet {I, Pa, Pb, Da, Db} x TR {0,1,255} x 3 contents + rejected inputs + clean-up is explored (every operation from every state, de-duplicated on the decoder's whole state), in Sorenson and standard mode; each transition's Ok/Err, most-recent picture (pixels, TR, type, quantizer) and prediction source are compared with the model (last, reference). A second, depth-bounded graph uses real motion over noise references.",
+         "Fixpoint holds for the stated alphabet (flat contents make the image space finite); state key through the cfg-gated hook; longer TR alphabets in the thorough tier.", "3.4"),
  "C07": ("yuv", "exhaustive enumeration of the finite input domain (2^24 colours x 8 code positions) against a fixed-point reference model",
          "Every one of the 16,777,216 (Y,Cb,Cr) triples is pushed through yuv420_to_rgba in every SIMD lane and every remainder slot, alone and among contrasting neighbours, and compared with a 16.16 model derived from the real BT.601 constants; the full result table is checked for monotonicity. The domain is finite, so this is a complete decision for the per-pixel formula.",
          "Trusts the model's derivation of the coefficients from the BT.601 reals and the C07 layout argument (7x1 pictures reach lanes 0..3 and remainder slots 0..2).", "3.7"),
